@@ -6,6 +6,7 @@ import z3
 from vf import driver, getterinst
 from vf.cexec import Contract, Frame, BV
 from contracts.c import allc, cdl, apicheck
+from contracts.py import structflags
 
 PID = 'C12'
 FUNCS = apicheck.C12_FUNCS
@@ -87,8 +88,9 @@ def getter_obligations(rep, backend_tu):
         covers += cv
     rep.extra['getter_instances'] = len(names)
     rep.extra['emitted_getters'] = getters
-    # bounded stand-in (a finite sample of declarations, not a proof about the generator): the flag word printed for
-    # five sentinel structs/unions says CHECK_FIELDS exactly for the complete declarations without '...'
+    # the flag logic of Recompiler._struct_ctx is decided by the exhaustive case contract contracts/py/structflags.py;
+    # in addition, as a bounded cross-check on the really emitted text: the flag word printed for five sentinel
+    # structs/unions says CHECK_FIELDS exactly for the complete declarations without '...'
     got = getterinst.struct_flags(getterinst.make_tu.last_text)
     wrong = {k: sorted(v) for k, v in got.items() if v != getterinst.STRUCT_FLAGS[k]}
     rep.bounded.append({'what': "flags printed by Recompiler._struct_ctx for 5 sentinel declarations (complete, '...', "
@@ -106,7 +108,7 @@ def concretise(ob, model):
 
 def main(tier, seed):
     return driver.run_property(
-        PID, tier, seed, c_part=(apicheck.R, FUNCS), more=getter_obligations, concretise=concretise,
+        PID, tier, seed, c_part=(apicheck.R, FUNCS), py_items=structflags.items(), more=getter_obligations, concretise=concretise,
         layout_types=('struct _cffi_type_context_s', 'struct _cffi_global_s', 'struct _cffi_getconst_s', 'builder_c_t',
                       'PyObject', 'PyTypeObject', 'CTypeDescrObject', 'CFieldObject', 'PyListObject', 'token_t',
                       'struct _cffi_parse_info_s'),
